@@ -91,11 +91,23 @@ Definition eclass_eqb (a b : eclass) : bool :=
   | _, _ => false
   end.
 
+(* ---------------------------------------------------------------- reading by the code of this run vs the reference reading
+   The reference (Flow/RowSem.v) never reads a padding entry as an edge and reads a has_group test as [_, group name]
+   in every kind of row.  The model follows the tree (Gen/Tables.v).  The two readings of a row agree when: *)
+Definition has_group_typed (c : econd) : bool := str_eqb (c_type c) has_group_s.
+(* no entry other than the first is blank throughout *)
+Definition no_paddingb (es : list redge) : bool := forallb (fun e => negb (edge_trivial e)) (tl es).
+Definition cond_agreesb (c : econd) : bool :=
+  (has_group_edges_by_name && has_group_by_name_from_noop) || negb (has_group_typed c).
+Definition edges_agreeb (es : list redge) : bool :=
+  (padding_edges_dropped_at_read || no_paddingb es) && forallb (fun e => cond_agreesb (e_cond e)) es.
+
 (* one row of the fragment: unnamed categories on every edge; node rows without node names / given ids, not random,
    carrying the class, the initial decision and at most the one action the reference reading of their kind gives *)
 Definition edge_okb (e : redge) : bool := match c_cname (e_cond e) with [] => true | _ => false end.
 
 Definition row_okb (cr : crow) : bool :=
+  edges_agreeb (r_edges (cr_row cr)) &&
   forallb edge_okb (r_edges (cr_row cr)) && match cr_uuid cr with [] => true | _ => false end &&
   match r_type (cr_row cr) with
   | TNode cls acts dec0 =>
@@ -116,6 +128,9 @@ Definition row_okb (cr : crow) : bool :=
 (* the sheet starts with a node row (the first node of the flow is the first node allocated) *)
 Definition fragb (rows : list crow) : bool :=
   forallb row_okb rows && match rows with cr :: _ => match r_type (cr_row cr) with TNode _ _ _ => true | _ => false end | [] => false end.
+
+(* what the simulation needs of an edge condition: an unnamed category; the code's arguments are the reference's *)
+Definition cond_ok (c : econd) : Prop := c_cname c = [] /\ row_args c = ref_args c /\ noop_args c = ref_args c.
 
 (* ---------------------------------------------------------------- the simulation relation *)
 Notation cluster := (nat * option nat)%type (only parsing).          (* the row's node, the implicit router *)
@@ -204,9 +219,9 @@ Inductive group_sim (phi : list cluster) (cn : list cnode) : group -> cgroup -> 
 | GS_row k cls c rt nd :
     nth_error phi k = Some c -> nth_error cn (fst c) = Some nd -> class_ok cls rt (cn_body nd) ->
     group_sim phi cn (GRow k cls) (CGRow (fst c) (match snd c with Some j => [j] | None => [] end) rt)
-| GS_noop ps : Forall (fun p => c_cname (snd p) = []) ps -> group_sim phi cn (GNoOp ps None) (CGNoOp ps None)
+| GS_noop ps : Forall (fun p => cond_ok (snd p)) ps -> group_sim phi cn (GNoOp ps None) (CGNoOp ps None)
 | GS_noop_router ps k k1 nd r :
-    Forall (fun p : nat * econd => c_cname (snd p) = []) ps ->
+    Forall (fun p : nat * econd => cond_ok (snd p)) ps ->
     nth_error phi k = Some (k1, None) -> nth_error cn k1 = Some nd -> cn_body nd = BSwitch SPlain r ->
     group_sim phi cn (GNoOp ps (Some k)) (CGNoOp ps (Some k1))
 | GS_block ms : group_sim phi cn (GBlock ms) (CGBlock ms).
